@@ -51,8 +51,12 @@ pub fn gen_admin(rng: &mut Rng, thorough: bool) -> Vec<String> {
     let n = if thorough { rng.range(6, 16) } else { rng.range(4, 10) };
     for _ in 0..n {
         let c = rng.pick(&["c1_0", "c2_1", "c1_2", "c1_2", "c1_0", "n1"]).to_string();
-        let who = rng.pick(&actors).to_string();
-        let r = rng.below(100);
+        // now and then the sender is the account with the EMPTY address: it is nobody's admin, in particular not the
+        // admin of a contract that has none
+        let empty_sender = rng.chance(1, 10);
+        let who = if empty_sender { "%empty".to_string() } else { rng.pick(&actors).to_string() };
+        let c = if empty_sender && rng.chance(2, 3) { "c2_1".to_string() } else { c };
+        let r = if empty_sender { rng.below(68) } else { rng.below(100) };
         ops.push("rawhash".into());
         let msg = if r < 30 {
             let code = if rng.chance(1, 8) { 9 } else { rng.range(1, ncodes) };
